@@ -1,15 +1,15 @@
 SPECIFICATION FairSpec
 CONSTANTS
- Addrs = {1, 2}
+ Addrs = {1}
  DefaultRetry = 5
  Slack = 0
  FreeMax = 10
  Dev = {}
  TrimOn = "match"
  Defect = "none"
- MaxFeeds = 2
+ MaxFeeds = 1
  MaxDials = 2
- MaxTime = 24
+ MaxTime = 21
  MaxSubs = 1
  FeedSet <- FramesLife
  DialSet <- DialAll
